@@ -13,7 +13,7 @@ EXPLANATION = ("(1) QPACK static table == RFC 9204 Appendix A (99 rows, one shar
                "stream_session.session_id() (= id of the CONNECT stream); (6) SessionRequest::new builds exactly the five pseudo-headers with "
                ":authority == url.authority() and :path == url.path() ++ ('?' ++ query)? (string algebra, any spelling), and Headers::insert / get store and "
                "look up names and values unchanged."
-               ' Also: StaticTable::lookup_index compares names and values by exact equality only (an indexed field line is value-preserving); the request stream is never dropped with a cancelled worker branch (C02-R7). C02-R8: the HEADERS frame is put on the wire whole whatever credit the peer grants: every write_frame layer awaits the layer below on the given frame, Frame::write_async emits [kind, len, payload] through PutVarint/PutBuffer, whose poll loops re-issue poll_write on the unwritten rest until the field is complete.')
+               ' Also: StaticTable::lookup_index compares names and values by exact equality only (an indexed field line is value-preserving); the request stream is never dropped with a cancelled worker branch (C02-R7). C02-R8: the HEADERS frame is put on the wire whole whatever credit the peer grants: every write_frame layer awaits the layer below on the given frame, Frame::write_async emits [kind, len, payload] through PutVarint/PutBuffer, whose poll loops re-issue poll_write on the unwritten rest until the field is complete. C02-R9: the accessors through which the server application reads the request (endpoint::SessionRequest::authority/path/origin/user_agent/headers -> stored proto request -> Headers::get) and the option builders through which the client is given url and fields (ConnectOptions / ConnectRequestBuilder / IntoConnectOptions, accept / accept_with_headers) forward unchanged. C02-R10/R11: the session hand-off channel is cross-wired (each endpoint\'s sender feeds the other\'s receiver); the server accept pipeline awaits SETTINGS, then the session stream, and wraps exactly that stream, connection and driver into the SessionRequest it hands out.')
 NOT_DECIDED = ["decode(encode(h)) == h for arbitrary strings (Huffman coder is an external crate; value-level law)", "URL parsing (url crate)"]
 TRUSTED = ["rustc MIR / const evaluation", "spec/qpack_static.json", "url::Url accessors"]
 
@@ -119,3 +119,85 @@ def run(ctx):
         ctx.check("C02-R8", "write_frame writes the given frame through the layer below", bool(okp) and all(any(re.match(r"^await %s$" % inner, e) for e in event_strs(p)) for p in okp),
                   "%s returns without awaiting %s on the caller's frame" % (g.path, inner), where(g), key="write_frame|%s" % re.sub(r"wtransport(_proto)?::", "", g.path))
     ctx.floor("C02-R8", "write_frame layers", n, 5)
+
+    ctx.rule("C02-R9", "the server application reads the request that was decoded, the client sends the options it was given: accessors and option builders forward unchanged")
+    REQ = r"<impl Stream<\(QuicSendStream, QuicRecvStream\), Stream<Bi, Session>>>::request\(self\.stream_session\)"
+    table = {
+        r"^wtransport::endpoint::SessionRequest::authority$": (r"^return SessionRequest::authority\(%s\)$" % REQ, []),
+        r"^wtransport::endpoint::SessionRequest::path$": (r"^return SessionRequest::path\(%s\)$" % REQ, []),
+        r"^wtransport::endpoint::SessionRequest::origin$": (r"^return SessionRequest::origin\(%s\)$" % REQ, []),
+        r"^wtransport::endpoint::SessionRequest::user_agent$": (r"^return SessionRequest::user_agent\(%s\)$" % REQ, []),
+        r"^wtransport::endpoint::SessionRequest::headers$": (r"^return (<Headers as AsRef<HashMap<String, String>>>::as_ref\()?SessionRequest::headers\(%s\)\)?$" % REQ, []),
+        r"^wtransport::driver::streams::session::<impl .*types::Session>>>::request$": (r"^return <impl Stream<Bi, Session>>::request\(self\.proto\)$", []),
+        r"^wtransport_proto::stream::session::<impl .*types::Session>>::request$": (r"^return Session::request\(self\.stage\)$", []),
+        r"^wtransport_proto::stream::types::Session::request$": (r"^return self\.session_request$", []),
+        r"^wtransport_proto::stream::types::Session::new$": (r"^return Session\(session_request\)$", []),
+        r"^wtransport_proto::session::SessionRequest::origin$": (r"^return Headers::get\(self\.0,'origin'\)$", []),
+        r"^wtransport_proto::session::SessionRequest::user_agent$": (r"^return Headers::get\(self\.0,'user-agent'\)$", []),
+        r"^wtransport_proto::session::SessionRequest::get$": (r"^return Headers::get\(self\.0,key\)$", []),
+        r"^wtransport_proto::session::SessionRequest::headers$": (r"^return self\.0$", []),
+        r"^wtransport_proto::session::SessionResponse::headers$": (r"^return self\.0$", []),
+        r"^wtransport_proto::session::SessionResponse::add$": (r"^return \(\)$", [r"^Headers::insert\(self\.0,key,value\)$"]),
+        r"^wtransport::endpoint::ConnectOptions::builder$": (r"^return ConnectRequestBuilder\(ToString::to_string\(url\),<HashMap<K, V, S> as Default>::default\(\)\)$", []),
+        r"^wtransport::endpoint::ConnectOptions::url$": (r"^return self\.url$", []),
+        r"^wtransport::endpoint::ConnectOptions::additional_headers$": (r"^return self\.additional_headers$", []),
+        r"^wtransport::endpoint::ConnectRequestBuilder::add_header$": (r"^return self$", [r"^HashMap::insert\(self\.additional_headers,ToString::to_string\(key\),ToString::to_string\(value\)\)$"]),
+        r"^wtransport::endpoint::ConnectRequestBuilder::build$": (r"^return ConnectOptions\(self\.url,self\.additional_headers\)$", []),
+        r"^<wtransport::endpoint::ConnectRequestBuilder as wtransport::endpoint::IntoConnectOptions>::into_options$": (r"^return ConnectRequestBuilder::build\(self\)$", []),
+        r"^<wtransport::endpoint::ConnectOptions as wtransport::endpoint::IntoConnectOptions>::into_options$": (r"^return self$", []),
+        r"^<S as wtransport::endpoint::IntoConnectOptions>::into_options$": (r"^return ConnectRequestBuilder::build\(ConnectOptions::builder\(self\)\)$", []),
+        r"^wtransport::endpoint::SessionRequest::accept::\{closure#0\}$": (r"^return await\(SessionRequest::accept_impl\(self,HashMap::new\(\)\)\)$", []),
+        r"^wtransport::endpoint::SessionRequest::accept_with_headers::\{closure#0\}$": (r"^return await\(SessionRequest::accept_impl\(self,Iterator::collect\(Iterator::map\(IntoIterator::into_iter\(headers\),closure:[^()]*\)\)\)\)$", []),
+        r"^wtransport::endpoint::SessionRequest::accept_with_headers::\{closure#0\}::\{closure#0\}$": (r"^return \(Into::into\(arg2\.0\),Into::into\(arg2\.1\)\)$", []),
+    }
+    nfw = shared.forwarders(ctx, "C02-R9", table, "request/options")
+    ctx.floor("C02-R9", "request / options forwarders", nfw, 26)
+    # the client takes url and additional headers from the options it was given
+    fn = A.fn("wtransport::endpoint::Endpoint::connect::{closure#0}")
+    with depth_limit(7):
+        evs2 = [e for p in nonpanic(walk(fn)) for e in event_strs(p)]
+    ctx.check("C02-R9", "connect: the request URL is the options' url", any(re.match(r"^SessionRequest::new\(ok\(Url::parse\(IntoConnectOptions::into_options\(options\)\.url\)\)\)$", e) for e in evs2),
+              "Endpoint::connect does not build the request from Url::parse(options.url): %s" % sorted({e[:120] for e in evs2 if e.startswith("SessionRequest::new(")}), where(fn))
+    ctx.check("C02-R9", "connect: additional headers are the options' additional_headers", any(re.search(r"::into_iter\(IntoConnectOptions::into_options\(options\)\.additional_headers\)", e) for e in evs2),
+              "Endpoint::connect does not iterate options.additional_headers", where(fn))
+
+    ctx.rule("C02-R10", "the session hand-off channel between driver and application is cross-wired: what one endpoint sends the *other* receives")
+    fn = A.fn("wtransport::driver::utils::bichannel")
+    lf = [canon(p.leaf[1], keep_sites=True) for p in nonpanic(walk(fn)) if p.leaf[0] == "return"]
+    m = re.match(r"^\(BiChannelEndpoint\(channel\(capacity\)@(\d+)\.0,Mutex::new\(channel\(capacity\)@(\d+)\.1\)@\d+\),BiChannelEndpoint\(channel\(capacity\)@(\d+)\.0,Mutex::new\(channel\(capacity\)@(\d+)\.1\)@\d+\)\)$", lf[0]) if len(lf) == 1 else None
+    ctx.check("C02-R10", "bichannel cross-wires two channels", m is not None and m.group(1) != m.group(2) and m.group(1) == m.group(4) and m.group(2) == m.group(3),
+              "bichannel does not pair the sender of each channel with the receiver of the other: %s" % lf, where(fn))
+    table = {
+        r"^wtransport::driver::utils::BiChannelEndpoint::send::\{closure#0\}$": (r"^return Result::map_err\(await\(Sender::send\(self\.sender,value\)\),closure:[^()]*\)$", []),
+        r"^wtransport::driver::utils::BiChannelEndpoint::try_send$": (r"^return Result::map_err\(Sender::try_send\(self\.sender,value\),closure:[^()]*\)$", []),
+        r"^wtransport::driver::utils::BiChannelEndpoint::recv::\{closure#0\}$": (r"^return await\(Receiver::recv\(await\(Mutex::lock\(self\.receiver\)\)\)\)$", []),
+    }
+    shared.forwarders(ctx, "C02-R10", table, "bichannel")
+
+    ctx.rule("C02-R11", "server accept pipeline: the SessionRequest handed to the application wraps the very session stream the driver accepted, on the same connection and driver")
+    fn = A.find1(r"^wtransport::endpoint::IncomingSessionFuture::accept::\{closure#0\}$")
+    DRV = r"Driver::init\(<Connection as Clone>::clone\(quic_connection\)\)"
+    rows = [
+        {"name": "settings, then session -> SessionRequest over the accepted stream", "atoms": [r"^await\(Driver::accept_settings\(%s\)\) ok$" % DRV, r"^await\(Driver::accept_session\(%s\)\) ok$" % DRV],
+         "leaf": r"^return Result::Ok\(SessionRequest::new\(quic_connection,%s,ok\(await\(Driver::accept_session\(%s\)\)\)\)\)$" % (DRV, DRV)},
+        {"name": "no session -> the driver's error", "atoms": [r"^await\(Driver::accept_session\(%s\)\) fails$" % DRV],
+         "leaf": r"^return Result::Err\(ConnectionError::with_driver_error\(err\(await\(Driver::accept_session\(%s\)\)\),quic_connection\)\)$" % DRV},
+        {"name": "no settings -> the driver's error", "atoms": [r"^await\(Driver::accept_settings\(%s\)\) fails$" % DRV],
+         "leaf": r"^return Result::Err\(ConnectionError::with_driver_error\(err\(await\(Driver::accept_settings\(%s\)\)\),quic_connection\)\)$" % DRV},
+    ]
+    with depth_limit(14):
+        match_table(ctx, "C02-R11", fn, walk(fn), rows, "IncomingSessionFuture::accept")
+    table = {
+        r"^wtransport::endpoint::SessionRequest::new$": (r"^return SessionRequest\(quic_connection,driver,stream_session\)$", []),
+        r"^<wtransport::endpoint::IncomingSession as std::future::IntoFuture>::into_future$": (r"^return IncomingSessionFuture::new\(self\.0\)$", []),
+        r"^wtransport::endpoint::IncomingSessionFuture::with_quic_incoming$": (r"^return IncomingSessionFuture::new\(quic_incoming\)$", []),
+        r"^<wtransport::endpoint::IncomingSessionFuture as std::future::Future>::poll$": (r"^return Future::poll\(self\.0,cx\)$", []),
+        r"^wtransport::endpoint::Endpoint::accept::\{closure#0\}$": (r"^return IncomingSession\(Option::expect\(await\(Endpoint::accept\(self\.endpoint\)\),'[^']*'\)\)$", []),
+    }
+    shared.forwarders(ctx, "C02-R11", table, "server accept")
+    for nm, arg in (("new", "quic_incoming"), ("with_quic_connecting", "quic_connecting")):
+        fn = A.find1(r"^wtransport::endpoint::IncomingSessionFuture::%s::\{closure#0\}$" % nm)
+        sg = sorted(path_sig(p)[1] for p in nonpanic(walk(fn)))
+        ctx.check("C02-R11", "IncomingSessionFuture::%s awaits the handshake, then accept()" % nm,
+                  sg == sorted(["return await(IncomingSessionFuture::accept(ok(await(%s))))" % arg, "return Result::Err(err(await(%s)))" % arg]),
+                  "IncomingSessionFuture::%s changed: %s" % (nm, sg), where(fn))
